@@ -285,7 +285,7 @@ theorem taskEnd_spec {s s' : State} {t : Nat} {res : TaskResult} {en : List ((Na
           cases hs
           refine ⟨evs, more ++ ((en.filter (·.2)).map (·.1)).map (fun k => .enable k.1 k.2), false, ?_, e7,
             by simp, ?_⟩
-          · simp only [finish, e1, e2, List.append_assoc]
+          · simp only [e1, e2, List.append_assoc]
           · intro _
             obtain ⟨h1, h2, h3, h4⟩ := e9 hu
             refine ⟨h1, h2, h3, h4, ?_, ?_⟩
@@ -318,7 +318,7 @@ theorem taskEnd_spec {s s' : State} {t : Nat} {res : TaskResult} {en : List ((Na
       · rename_i hcond
         cases hs
         refine ⟨evs, more, used, ?_, e7, ?_, ?_⟩
-        · simp only [finish, e1, e2]
+        · simp only [e1, e2]
         · intro hu
           obtain ⟨h1, h2, h3⟩ := e8 hu
           exact ⟨h1, h2, h3, e3⟩
